@@ -9,8 +9,10 @@
      chk_lib    [C03] the library's strict parser opened the file without entering recovery and reads every
                 in-use object as the same value the reference reader resolves
      chk_pages  [C02] page count, boxes, rotation and content operators, as read by the reference reader and by
-                the library, are what the authoring program says (ContentOps model, documented rounding)      *)
-EXTENDS PdfFile, ContentOps
+                the library, are what the authoring program says (ContentOps model, documented rounding)
+     chk_interactive  [C02, C03] the annotations and form fields the program authored are what the reference
+                reader finds on each page and under /AcroForm (module Interactive)                            *)
+EXTENDS Interactive
 
 VARIABLES l
 tvars == <<allvars, l>>
@@ -22,7 +24,7 @@ TFile == /\ IsEvent("file")
          /\ Rec[l].built
          /\ FileStart(l)
 
-TScan == /\ l <= NRec /\ Rec[l].ev \in {"chk_file", "chk_lib", "chk_pages", "chk_resources"} /\ phase \notin {"idle", "done"}
+TScan == /\ l <= NRec /\ Rec[l].ev \in {"chk_file", "chk_lib", "chk_pages", "chk_resources", "chk_interactive"} /\ phase \notin {"idle", "done"}
          /\ FileStep(TRUE)
          /\ UNCHANGED l
 
@@ -113,7 +115,12 @@ TChkResources == /\ IsEvent("chk_resources")
                  /\ IF ResourceProblems = {} THEN TRUE ELSE PrintT(<<"PROBLEMS", ToJson([idx |-> l, problems |-> ResourceProblems])>>) /\ FALSE
                  /\ UNCHANGED allvars
 
-TNext == TFile \/ TScan \/ TChkFile \/ TChkLib \/ TChkPages \/ TChkResources
+TChkInteractive == /\ IsEvent("chk_interactive")
+                   /\ phase = "done"
+                   /\ IF InteractiveProblems = {} THEN TRUE ELSE PrintT(<<"PROBLEMS", ToJson([idx |-> l, problems |-> InteractiveProblems])>>) /\ FALSE
+                   /\ UNCHANGED allvars
+
+TNext == TFile \/ TScan \/ TChkFile \/ TChkLib \/ TChkPages \/ TChkResources \/ TChkInteractive
 TraceSpec == TInit /\ [][TNext]_tvars
 Prog == Progress(l)
 =============================================================================
